@@ -43,8 +43,8 @@ class Check(differential.DifferentialCheck):
                         continue
                 if tag != extra['key_tag']:
                     found.append(self.violation(
-                        'key-tag-mismatch|%s|%s-length-rdata' % ('rsamd5' if extra['kind'] == 'rsamd5' else 'appendix-b',
-                                                               'odd' if extra['rdata_odd'] else 'even'),
+                        'key-tag-mismatch|%s|%s-length-rdata%s' % ('rsamd5' if extra['kind'] == 'rsamd5' else 'appendix-b',
+                                                                 'odd' if extra['rdata_odd'] else 'even', pair.key_suffix),
                         '%s: key_tag of the %s record is %d, RFC 4034 Appendix B gives %d (RDATA of %d bytes)' % (
                             pair.label, label, tag, extra['key_tag'], len(pair.wire)), case))
         if 'any_split' in extra:
